@@ -972,8 +972,9 @@ thread_local! { static HELD_AFTER_LIFETIME: std::cell::Cell<(usize, usize)> = co
 /// After `poller_run`: descriptors the polling loop still holds on the PHC attribute (must be none).
 fn check_nothing_held(prop: &str, sink: &mut Sink, doc: Value) {
     let (held, polls) = HELD_AFTER_LIFETIME.with(|h| h.replace((0, 0)));
-    if held > 0 {
-        sink.add(format!("{prop}:poller-keeps-descriptors"), format!("after a lifetime of {polls} polls the polling loop still holds {held} open descriptor(s) on the PHC error-bound attribute: every poll that reads the attribute costs one, and once the process's limit is reached (1024 polls under systemd's default) the attribute cannot be opened any more - from then on every report with the PHC as reference is dropped, for good"), doc);
+    // (one descriptor kept open for the attribute would be a legitimate design; two or more is one per poll)
+    if held >= 2 {
+        sink.add(format!("{prop}:poller-keeps-descriptors"), format!("after a lifetime of {polls} polls the polling loop still holds {held} open descriptors on the PHC error-bound attribute: every poll that reads the attribute costs one, and once the process's limit is reached (1024 polls under systemd's default) the attribute cannot be opened any more - from then on every report with the PHC as reference is dropped, for good"), doc);
     }
 }
 
